@@ -47,7 +47,7 @@ pub struct Case {
     /// plug in a checksum generator (the `ChecksumGenerator` seam) whose result depends on the creator
     #[serde(default)]
     pub creator_checksums: bool,
-    /// the last `plain_accounts` accounts (never account 0) have plain names ("owner", "mallory") as
+    /// the last `plain_accounts` accounts (never account 0) have plain names ("owner", and "OWNER" which differs from it only in case) as
     /// many tests use them: no valid address for the chain's Api, yet usable as sender, creator, admin
     #[serde(default)]
     pub plain_accounts: u8,
@@ -125,7 +125,7 @@ impl Sim {
         let plain = (case.plain_accounts as u32).min(2).min(n_acc.saturating_sub(1));
         for i in 0..n_acc {
             if i >= n_acc - plain {
-                names.accounts.push(["owner", "mallory"][(n_acc - 1 - i) as usize].to_string());
+                names.accounts.push(["owner", "OWNER"][(n_acc - 1 - i) as usize].to_string());
             } else {
                 names.accounts.push(api.addr_make(&format!("account{}", i)).to_string());
             }
@@ -970,8 +970,26 @@ impl Sim {
         }
         // a top-level instantiation that fails although it must succeed (or the reverse) is C11's business too
         // ("every stored or duplicated code can be instantiated", "rejected as a duplicate, leaving state unchanged")
-        let extra: &[&str] = if cmsgs.iter().any(|m| matches!(m, CMsg::Inst { .. })) { &["C11"] } else { &[] };
-        let ok = self.settle(&what, &before, real, |m| m.top_level(&sender_addr, &cmsgs), true, extra);
+        let mut extra: Vec<&str> = vec![];
+        if cmsgs.iter().any(|m| matches!(m, CMsg::Inst { .. })) {
+            extra.push("C11");
+        }
+        // likewise an admin operation (anywhere in the tree) that is accepted although it must fail, or fails
+        // leaving something behind, is C12's "otherwise fail leaving code id, admin and storage unchanged"
+        fn has_admin_op(m: &MsgSpec) -> bool {
+            match m {
+                MsgSpec::UpdateAdmin { .. } | MsgSpec::ClearAdmin { .. } | MsgSpec::Migrate { .. } => true,
+                MsgSpec::Exec { node, .. } | MsgSpec::Inst { node, .. } => node_has_admin_op(node),
+                _ => false,
+            }
+        }
+        fn node_has_admin_op(n: &Node) -> bool {
+            n.subs.iter().any(|s| has_admin_op(&s.msg) || s.reply.as_ref().map(|r| node_has_admin_op(r)).unwrap_or(false))
+        }
+        if msgs.iter().any(has_admin_op) {
+            extra.push("C12");
+        }
+        let ok = self.settle(&what, &before, real, |m| m.top_level(&sender_addr, &cmsgs), true, &extra);
         ok
     }
 
@@ -1222,6 +1240,20 @@ impl Sim {
         let id = id.map(|i| if i == u64::MAX - 1 { max_id.saturating_add(1) } else { i });
         let app = &mut self.app;
         self.stats.steps += 1;
+        if id.is_none() && max_id == u64::MAX {
+            // no id is left: the documented behaviour of store_code is to panic; nothing may change
+            let before = app.storage().snapshot();
+            let real: RealOut<u64> = guarded(|| Ok(app.store_code_with_creator(ca, code)));
+            if let RealOut::Ok(got) = real {
+                self.v(&["C11"], "code_id", format!("store_code returned id {} although u64::MAX is in use", got));
+            }
+            if self.app.storage().snapshot() != before {
+                self.v(&["C11"], "code_id", "store_code without a free id changed the chain state".to_string());
+            }
+            let _ = self.world.take_module_calls();
+            self.world.0.borrow_mut().call_counts = self.model.call_counts.clone();
+            return self.viol.is_empty();
+        }
         let (real, expected): (RealOut<u64>, Result<u64, ()>) = match id {
             None => (guarded(|| Ok(app.store_code_with_creator(ca, code))), Ok(max_id + 1)),
             Some(i) => (
@@ -1283,6 +1315,15 @@ impl Sim {
         let app = &mut self.app;
         self.stats.steps += 1;
         let real = guarded(|| app.duplicate_code(id));
+        if max_id == u64::MAX {
+            // no id is left: duplicating must be refused
+            if let RealOut::Ok(got) = real {
+                self.v(&["C11"], "code_id", format!("duplicate_code({}) returned id {} although u64::MAX is in use", id, got));
+            }
+            let _ = self.world.take_module_calls();
+            self.world.0.borrow_mut().call_counts = self.model.call_counts.clone();
+            return self.viol.is_empty();
+        }
         match (real, src) {
             (RealOut::Ok(got), Some(src)) => {
                 if got != max_id + 1 {
